@@ -228,14 +228,25 @@ class HelpersMachine(Machine):
         return {"op": "noop"}
 
     # ------------------------------------------------------------------ execution
+    def _guard(self, fn, after):
+        """Reading the object through its public accessors must not fail."""
+        try:
+            fn(after)
+        except Violation:
+            raise
+        except Exception as e:
+            raise Violation("accessor_failed",
+                            {"after": after, "error": [type(e).__name__, repr(e.args)[:200]]},
+                            signature=f"C20/accessor_failed/{self.kind}")
+
     def apply(self, op):
         if self.kind.startswith("table"):
             out = self._apply_table(op)
-            self._check_table(op["op"])
+            self._guard(self._check_table, op["op"])
             self.abstract = f"n{min(len(self.model), 6)}" + ("f" if self.failed_ops else "")
         else:
             out = self._apply_rows(op)
-            self._check_rows(op["op"])
+            self._guard(self._check_rows, op["op"])
             self.abstract = f"n{min(len(self.rows), 6)}" + ("f" if self.failed_ops else "")
         if self.failed_ops or op["op"] in ("sort", "del", "del_pos", "setitem"):
             self.nontrivial = True
